@@ -40,6 +40,7 @@ struct Profile {
 	size_t buflen = BR_SSL_BUFSIZE_MONO;     // L_MONO / L_BIDI: total
 	size_t ilen = BR_SSL_BUFSIZE_INPUT, olen = BR_SSL_BUFSIZE_OUTPUT;   // L_SPLIT
 	uint32_t flags = 0;
+	unsigned min_clienthello_len = 0;        // Bear client only: br_ssl_client_set_min_clienthello_len (padding extension)
 	bool esp = false;                        // implementations an ESP8266 build uses (ct / ctmul32 / i15 / m15)
 	KeyKind key = K_RSA;                     // server only
 	unsigned usages = BR_KEYTYPE_KEYX | BR_KEYTYPE_SIGN;   // server only
@@ -331,6 +332,7 @@ struct BearClient : BearEndpoint {
 		if (!p.suites.empty()) br_ssl_engine_set_suites(eng, p.suites.data(), p.suites.size());
 		br_ssl_engine_set_versions(eng, p.vmin, p.vmax);
 		br_ssl_engine_set_all_flags(eng, p.flags);
+		if (p.min_clienthello_len) br_ssl_client_set_min_clienthello_len(sc.get(), (uint16_t)p.min_clienthello_len);
 		if (!p.alpn.empty()) {
 			for (auto &a : prof.alpn) alpn_ptrs.push_back(a.c_str());
 			br_ssl_engine_set_protocol_names(eng, alpn_ptrs.data(), alpn_ptrs.size());
